@@ -325,3 +325,34 @@ def prime_same_object(G, fn):
         return True
     except Exception:
         return False
+
+
+def prime_other_weights(G, fn, edge_attr="w", node_attr="g"):
+    """`fn(G)` is called once while the SAME graph object temporarily carries other weights (every edge / node weight
+    x -> 2x+1, edited in place); the weights are then restored in place.  Anything an implementation remembers about the
+    weights of a graph object (a cache keyed by the object, its nodes and the attribute name) is stale afterwards.
+    The module-level random state is left as it was."""
+    import random
+    st = random.getstate()
+    try:
+        old_e = {}
+        for a, b, d in G.edges(data=True):
+            if edge_attr in d:
+                old_e[(a, b)] = d[edge_attr]
+                d[edge_attr] = 2 * d[edge_attr] + 1
+        old_n = {}
+        for u, d in G.nodes(data=True):
+            if node_attr in d:
+                old_n[u] = d[node_attr]
+                d[node_attr] = 2 * d[node_attr] + 1
+        try:
+            fn(G)
+        except Exception:
+            pass
+        for (a, b), x in old_e.items():
+            G.edges[a, b][edge_attr] = x
+        for u, x in old_n.items():
+            G.nodes[u][node_attr] = x
+        return True
+    finally:
+        random.setstate(st)
